@@ -1,7 +1,7 @@
-//! C09: not implemented yet.
+//! C09: declared constraints hold exactly (engine in dmlengine.rs, focus = constraint-heavy schemas).
+use super::dmlengine::{run_prop, Focus};
 use crate::Args;
 
-pub fn run(_a: &Args) -> i32 {
-    println!("INCONCLUSIVE property=C09 reason=check not implemented yet");
-    2
+pub fn run(a: &Args) -> i32 {
+    run_prop(a, "C09", Focus::Constraints, "generated histories over 2-3 tables with PRIMARY KEY, UNIQUE, NOT NULL, CHECK (comparison / BETWEEN / OR forms) and FOREIGN KEY (RESTRICT or CASCADE) declarations; the model decides every write: a valid write must be accepted (valid_statement_accepted) and an invalid one rejected (invalid_statement_rejected), including updates of key columns, delete-then-reinsert of a key, parent deletes, NULL children and rollbacks in between. distinct_nontrivial = distinct histories with more than 8 executed statements")
 }
